@@ -231,6 +231,48 @@ def check_chain(ctx: Ctx, c: Dict[str, Any], variant: int = 0) -> None:
             except Exception as ex:
                 ctx.violation(dict(**sig, attr="flow_sample", axes=axes_f.value, exc=type(ex).__name__), f"{what}: FlowFields.sample() on the derived grid raised {type(ex).__name__}: {str(ex)[:120]}", c)
                 return
+    # (3d) convolution of the ORIGINAL image(s) with symmetric kernels of unit sum: a world-linear ramp is reproduced wherever the kernel
+    # lies inside the image; 'same' paddings keep the grid, an explicit margin / no padding crops the grid symmetrically (center kept)
+    if len(hist) == 1:
+        k3 = torch.tensor([0.25, 0.5, 0.25])
+        k5 = torch.tensor([0.1, 0.2, 0.4, 0.2, 0.1])
+        # a sequence of 1-d kernels is in TENSOR order (first kernel -> first spatial tensor dimension, i.e. the LAST grid axis)
+        seq_reach = list(reversed([2, 1] + [0] * (D - 2)))
+        plans = [("1d", k3, None, [1] * D), ("1d-replicate", k3, "replicate", [1] * D), ("seq", [k5, k3] + [None] * (D - 2), None, seq_reach),
+                 ("seq-valid", [k5, k3] + [None] * (D - 2), 0, seq_reach), ("nd", torch.einsum("i,j->ij", k3, k5), None, [2, 1] + [0] * (D - 2)),
+                 ("1d-valid", k3, 0, [1] * D)]
+        name_, ker, pad_c, reach = plans[(variant // 3) % len(plans)]   # reach: half width per axis (x, y, z)
+        srcs0 = [base] if kind != "batch2" else [base, base2]
+        if all(n_ > 2 * r_ + 2 for n_, r_ in zip(base.size(), reach)):
+            sigc = dict(**sig0, op="conv", kernel=name_, padding=str(pad_c))
+            try:
+                yc = x0.conv(ker, padding=pad_c)
+                gcs = [yc.grid()] if kind == "image" else list(yc.grids())
+                dcs = yc.tensor() if kind != "image" else yc.tensor().unsqueeze(0)
+                valid = pad_c == 0
+                for it, (g0_, gc_) in enumerate(zip(srcs0, gcs)):
+                    exp_size = [n_ - 2 * r_ if valid else n_ for n_, r_ in zip(g0_.size(), reach)]
+                    if (list(gc_.size()) != exp_size or max_err(gc_.center(), g0_.center()) > 1e-4 or max_err(gc_.spacing(), g0_.spacing()) > 1e-6
+                            or max_err(gc_.direction(), g0_.direction()) > 1e-6 or tuple(gc_.shape) != tuple(dcs.shape[2:])):
+                        ctx.violation(dict(**sigc, attr="conv_grid", item=it), f"{kind}: conv({name_}, padding={pad_c}) returns grid {gc_!r} / data shape {tuple(dcs.shape[2:])} for source grid {g0_!r}", c)
+                        return
+                    w = gc_.index_to_world(gc_.coords(normalize=False).to(torch.float32)).to(torch.float64).reshape(-1, D)
+                    idx = g0_.world_to_index(w.float(), decimals=None).to(torch.float64)
+                    lo = torch.tensor([float(r_) for r_ in reach], dtype=torch.float64) - 1e-3
+                    hi = torch.tensor([float(n_ - 1 - r_) for n_, r_ in zip(g0_.size(), reach)], dtype=torch.float64) + 1e-3
+                    m = ((idx >= lo) & (idx <= hi)).all(dim=-1)
+                    if pad_c == "replicate":
+                        pass  # (edge replication does not reproduce a ramp at the border: interior only, as for zeros)
+                    if int(m.sum()) == 0:
+                        continue
+                    expv = w @ a + b
+                    err = float((dcs[it, 0].reshape(-1).to(torch.float64) - expv)[m].abs().max())
+                    if err > 3e-4 * max(1.0, float(expv.abs().max())):
+                        ctx.violation(dict(**sigc, attr="conv_data", item=it), f"{kind}: conv({name_}, padding={pad_c}) is off the ramp by {err:.3g} on {int(m.sum())} interior samples", c)
+                        return
+            except Exception as ex:
+                ctx.violation(dict(**sigc, attr="conv", exc=type(ex).__name__), f"{kind}: conv({name_}, padding={pad_c}) raised {type(ex).__name__}: {str(ex)[:120]}", c)
+                return
     # (4) the probes computed exactly by the specification (first item)
     g = grids[0]
     for p in c["probes"]:
